@@ -36,8 +36,15 @@ Lookup(key) == {p[2] : p \in {q \in seen : q[1] = key}}
 
 TraceInit == /\ tid \in 1..Len(Traces) /\ Init /\ l = 1 /\ seen = {} /\ failing = {}
 
+\* a process executes many programs one after the other: the pool starts afresh for each, what was observed is remembered
+\* (hidden state that survives from one program to the next is still hidden state)
+Reset ==
+  /\ l <= Len(St) /\ St[l].kind = "reset"
+  /\ pool' = BaseObjects /\ prog' = <<>>
+  /\ l' = l + 1 /\ UNCHANGED <<tid, seen, failing>>
+
 Step ==
-  /\ l <= Len(St)
+  /\ l <= Len(St) /\ St[l].kind = "call"
   /\ LET e    == St[l]
          f    == e.f
          args == e.args
@@ -65,6 +72,6 @@ Finish ==
   /\ PrintT(<<"API", Tr.tid, failing>>)
   /\ l' = l + 1 /\ UNCHANGED <<vars, tid, seen, failing>>
 
-TraceNext == Step \/ Finish
+TraceNext == Reset \/ Step \/ Finish
 TraceSpec == TraceInit /\ [][TraceNext]_tvars
 =============================================================================
